@@ -29,6 +29,7 @@ type Cfg struct {
 	NoThrow      bool // no throw and no recovery expressions
 	NoState      bool // no #{...} blocks
 	NoCodePreds  bool // no &{...} / !{...}
+	Utf8Heavy    bool // every other class lists U+FFFD among its members
 	// LeftRec appends the dedicated left-recursive shape
 	//	L <- L op X {..} / X      X <- [0-9]+
 	// and references L from the first rule (to be used with
@@ -117,15 +118,16 @@ var runePool = []rune{
 }
 
 type genState struct {
-	r      *rand.Rand
-	cfg    Cfg
-	names  []string // rule names
-	cons   []bool   // planned: rule i always consumes (is not nullable')
-	cur    int      // rule being generated
-	labelN int
-	labels map[string]bool // labels used so far in the current rule
-	flabel []string        // failure labels of the grammar
-	nodes  int
+	inClass bool // drawing the members of a character class
+	r       *rand.Rand
+	cfg     Cfg
+	names   []string // rule names
+	cons    []bool   // planned: rule i always consumes (is not nullable')
+	cur     int      // rule being generated
+	labelN  int
+	labels  map[string]bool // labels used so far in the current rule
+	flabel  []string        // failure labels of the grammar
+	nodes   int
 }
 
 // Gen draws one grammar. The result is in the normal form of the pigeon
@@ -531,7 +533,8 @@ func (s *genState) pickRune(plain bool) rune {
 	}
 	for {
 		c := runePool[r.Intn(len(runePool))]
-		if c == 0xfffd && (s.cfg.WellFormed || s.cfg.Compilable) {
+		if c == 0xfffd && (s.cfg.WellFormed || s.cfg.Compilable) && !s.inClass {
+			// D1 is about literals; a class may well list U+FFFD (it then also matches a stray byte)
 			continue
 		}
 		if c == 0xe000 && s.cfg.BootstrapSubset && !s.cfg.Avoid.BootE000 {
@@ -568,6 +571,8 @@ func (s *genState) lit(c ctx) ast.Expression {
 func (s *genState) class(c ctx) ast.Expression {
 	r := s.r
 	av := s.cfg.Avoid
+	s.inClass = true
+	defer func() { s.inClass = false }()
 	n := 1 + r.Intn(4)
 	if !s.cfg.WellFormed && !s.cfg.Compilable && r.Intn(25) == 0 {
 		n = 0
@@ -596,6 +601,15 @@ func (s *genState) class(c ctx) ast.Expression {
 			}
 			items = append(items, ClassItem{Class: nm, Short: short})
 			hasWide = true
+		}
+	}
+	if s.cfg.Utf8Heavy && r.Intn(2) == 0 {
+		// U+FFFD listed in the class, in any position and any spelling (raw or escaped, BuildClass decides), with an
+		// easy member behind it: the class then matches a stray byte too, and everything written after it still counts
+		k := r.Intn(len(items) + 1)
+		items = append(items[:k], append([]ClassItem{{Lo: 0xfffd}}, items[k:]...)...)
+		if r.Intn(3) > 0 {
+			items = append(items, ClassItem{Lo: rune("abcxyz01"[r.Intn(8)])})
 		}
 	}
 	if !av.ClassDash {
